@@ -133,6 +133,57 @@ def check_scaling(ctx, num=3):
            construct="get_peak_memory_gb cases", detail=d)
 
 
+def _countdown_form(f):
+    """An operator's progress may be kept as ticks *left* (total, total-1, .., 0) or as ticks *done* against a fixed total
+    (0, 1, .., total): `done == total` iff `total - done == 0`.  The rules below are stated on the count-down; a generator written with
+    the upward counter is rewritten to it: `done = 0` dropped, `done += 1` -> `total -= 1`, `done == total` -> `total == 0` — valid
+    because after `done = 0` the total is read nowhere but in that test."""
+    from ..model import Func
+    incs = [n for n in own_nodes(f.node) if isinstance(n, ast.AugAssign) and isinstance(n.target, ast.Name) and isinstance(n.op, ast.Add)
+            and isinstance(n.value, ast.Constant) and n.value.value == 1 and not isinstance(n.value.value, bool)]
+    for inc in incs:
+        D = inc.target.id
+        inits = [n for n in own_nodes(f.node) if isinstance(n, ast.Assign) and len(n.targets) == 1 and norm.is_name(n.targets[0], D)]
+        if len(inits) != 1 or not (isinstance(inits[0].value, ast.Constant) and inits[0].value.value == 0 and not isinstance(inits[0].value.value, bool)):
+            continue
+        if len([n for n in own_nodes(f.node) if isinstance(n, ast.AugAssign) and norm.is_name(n.target, D)]) != 1:
+            continue
+        tests = [n for n in own_nodes(f.node) if isinstance(n, ast.Compare) and len(n.ops) == 1 and isinstance(n.ops[0], ast.Eq)
+                 and isinstance(n.left, ast.Name) and isinstance(n.comparators[0], ast.Name) and D in (n.left.id, n.comparators[0].id)]
+        reads = [n for n in own_nodes(f.node) if isinstance(n, ast.Name) and n.id == D and isinstance(n.ctx, ast.Load)]
+        if len(tests) != 1 or len(reads) != 1:
+            continue
+        T = tests[0].comparators[0].id if tests[0].left.id == D else tests[0].left.id
+        # after `D = 0` the total is read only in the test and never written
+        later_T = [n for n in own_nodes(f.node) if isinstance(n, ast.Name) and n.id == T and getattr(n, "lineno", 0) > inits[0].lineno and not any(n is x for x in ast.walk(tests[0]))]
+        if later_T:
+            continue
+        node = norm.clone(f.node)
+        omap = {id(o): c_ for o, c_ in zip(ast.walk(f.node), ast.walk(node))}
+
+        class R(ast.NodeTransformer):
+            def visit_Assign(self, n):
+                return ast.copy_location(ast.Pass(), n) if n is omap[id(inits[0])] else self.generic_visit(n)
+
+            def visit_AugAssign(self, n):
+                if n is omap[id(inc)]:
+                    return ast.copy_location(ast.AugAssign(target=ast.Name(id=T, ctx=ast.Store()), op=ast.Sub(), value=ast.Constant(1)), n)
+                return self.generic_visit(n)
+
+            def visit_Compare(self, n):
+                if n is omap[id(tests[0])]:
+                    return ast.copy_location(ast.Compare(left=ast.Name(id=T, ctx=ast.Load()), ops=[ast.Eq()], comparators=[ast.Constant(0)]), n)
+                return self.generic_visit(n)
+        node = R().visit(node)
+        ast.fix_missing_locations(node)
+        for n in ast.walk(node):
+            for ch in ast.iter_child_nodes(n):
+                ch._parent = n  # type: ignore[attr-defined]
+        node._parent = getattr(f.node, "_parent", None)  # type: ignore[attr-defined]
+        return Func(f.mod, f.qual, node, f.cls)
+    return f
+
+
 class Shape:
     """The tick plan of the generator, located by role (not by name)."""
 
@@ -140,7 +191,7 @@ class Shape:
         P = ctx.P
         self.P = P
         from ..util import inline_helpers
-        self.gen = inline_helpers(P, P.fn(CT, "Container._tick_generator"))   # yield-free private helpers extracted from the generator are inlined
+        self.gen = _countdown_form(inline_helpers(P, P.fn(CT, "Container._tick_generator")))   # yield-free private helpers extracted from the generator are inlined
         ctx.touch(self.gen)
         f = self.gen
         self.g = cfg_of(f, subst_env=False)
